@@ -5,6 +5,7 @@ One request per line on stdin, one reply line per request on stdout.
 import SnapraidVerif.Raid.Spec
 import SnapraidVerif.Codec.Content
 import SnapraidVerif.Codec.Save
+import SnapraidVerif.Array.ScrubPlan
 
 open SnapraidVerif SnapraidVerif.GF SnapraidVerif.Raid SnapraidVerif.Codec
 
@@ -105,6 +106,45 @@ def handle (toks : List String) : String :=
       | none => "reject"
       | some p => hex8 (reserialize p)
     | _, _ => "bad-op"
+  | "scrub-plan" :: plan :: a1 :: a2 :: infos =>
+    let parseInfo (t : String) : Option (Option Scrub.Info) :=
+      if t = "-" then some none else
+      match t.splitOn ":" with
+      | [tm, fl] => match tm.toNat?, fl.toNat? with
+        | some tm, some fl => some (some { time := tm, bad := fl / 2 % 2 == 1, rehash := fl / 4 % 2 == 1, justsynced := fl / 8 % 2 == 1 })
+        | _, _ => none
+      | _ => none
+    let is := infos.map parseInfo
+    if is.any (·.isNone) then "bad-op" else
+    let is := is.filterMap id
+    let pl : Option Scrub.Plan :=
+      if plan = "full" then some .full else if plan = "new" then some .new else if plan = "bad" then some .bad
+      else if plan = "even" then some .even
+      else if plan = "auto" then (match a1.toNat?, a2.toNat? with | some c, some r => some (.auto c r) | _, _ => none)
+      else none
+    match pl with
+    | none => "bad-op"
+    | some pl =>
+      let lim := Scrub.planLimits pl is
+      s!"{lim.countlimit} {lim.timelimit} {lim.lastlimit} " ++ String.ofList ((Scrub.select pl is).map fun b => if b then '1' else '0')
+  | "content-setinfo" :: bs :: hex :: oldest :: runs =>
+    match bs.toNat?, parseHex8 hex, oldest.toNat? with
+    | some bs, some bytes, some oldest =>
+      let parseRun (t : String) : Option InfoRun := match t.splitOn ":" with
+        | [c, f, tm] => match c.toNat?, f.toNat?, tm.toNat? with
+          | some c, some f, some tm => some { count := c, flag := f, time := tm }
+          | _, _, _ => none
+        | _ => none
+      let rs := runs.map parseRun
+      if rs.any (·.isNone) then "bad-op" else
+      match parse bs bytes with
+      | none => "reject"
+      | some p =>
+        let recs := p.recs.map fun r => match r with
+          | .info _ _ => Rec.info oldest (rs.filterMap id)
+          | r => r
+        hex8 (reserialize { p with recs := recs })
+    | _, _, _ => "bad-op"
   | "save-accepts" :: ops =>
     let parsed := ops.map fun t =>
       match t.toList with
